@@ -7,6 +7,7 @@ import Driver.Session
 import Driver.Credit
 import Driver.RecvCredit
 import Driver.Frame
+import Driver.Codec
 
 structure DState where
   sess : Amqp.Session.St := Amqp.Session.init 0 0 0
@@ -32,6 +33,7 @@ def handle (st : DState) (line : String) : DState × String :=
     match Driver.Frame.step st.frame ws with
     | some (s, out) => ({ st with frame := s }, out)
     | none => (st, "bad-op")
+  | "V" :: ws => (st, (Driver.Codec.step ws).getD "bad-op")
   | "W" :: ws => (st, (Driver.Credit.wait ws).getD "bad-op")
   | _ => (st, "bad-op")
 
